@@ -419,6 +419,9 @@ class FitBase(FileIOMixin, object):
         self._fitter.reset_minimizer()
         for _error_name in self._BASIC_ERROR_NAMES:
             self._nexus.get(_error_name).mark_for_update()
+        if self._cost_function_pointwise is not None:
+            # the last fit may have selected the pointwise cost function, valid only for the errors of that fit
+            self._fitter.parameter_to_minimize = self._cost_function.name
         if self._implicit_no_errors:
             _cost_function_class, _kwargs = self._STRING_TO_COST_FUNCTION["chi2_covariance"]
             self._cost_function = _cost_function_class(**_kwargs)
